@@ -76,7 +76,9 @@ def binary_families(maxw, tier):
                     if op in ("truncdiv", "mod", "rem") and c == 0:
                         continue
                     ex.append((rt_arith(op, ta, None), bin_(op, a, pint(c))))
-                    if op in ("add", "sub", "mul"):
+                    # the Python int as LEFT operand (reflected methods); for division-like operators the vector is the
+                    # divisor, a = 0 is undefined there and is skipped by the specification
+                    if op in ("add", "sub", "mul") or c >= 0:
                         ex.append((rt_arith(op, None, ta), bin_(op, pint(c), a)))
                 for op in cmp_ops:
                     ex.append((BIT, bin_(op, a, pint(c))))
@@ -151,6 +153,24 @@ def struct_families(maxw, tier):
             yield (f"dyn_{ka}{wa}", [("a", ta), ("i", T(U, wi))], [(BIT, dynidx(a, i))])
 
 
+def nested_slice_families(tier):
+    """chains of 2-4 constant slices / indices whose outer slices have a non-zero lower bound: the emitted range must be the
+    composition of all offsets"""
+    a = ref("a")
+    out = []
+    for kind in (BV, U):
+        ta = T(kind, 8)
+        ex = [(T(BV, 4), slice_(slice_(a, 7, 2), 4, 1)),                          # a[5:2]
+              (T(BV, 2), slice_(slice_(slice_(a, 7, 2), 4, 1), 2, 1)),             # a[4:3]
+              (T(BV, 3), slice_(slice_(slice_(a, 7, 1), 5, 2), 3, 1)),             # a[6:4]
+              (BIT, idx(slice_(slice_(a, 7, 2), 4, 1), 2)),                        # a[5]
+              (BIT, idx(slice_(slice_(slice_(a, 7, 1), 6, 1), 4, 2), 1)),          # a[5]
+              (T(BV, 1), slice_(slice_(slice_(slice_(a, 7, 1), 6, 1), 4, 2), 1, 1)),  # a[5:5]
+              (T(U, 2), view(slice_(slice_(slice_(a, 6, 1), 4, 1), 2, 1), U))]     # a[4:3] as unsigned
+        out.append((f"nest_{kind}8", [("a", ta)], ex))
+    return out
+
+
 def random_trees(rng, n, maxw, depth=3):
     """seeded random well-typed numeric expression trees over ports a,b,c"""
     out = []
@@ -201,5 +221,6 @@ def all_families(tier, rng):
     fams += list(bitwise_families(maxw, tier))
     fams += list(shift_families(maxw, tier))
     fams += list(struct_families(3 if tier == "quick" else 4, tier))
+    fams += nested_slice_families(tier)
     fams += random_trees(rng, 60 if tier == "quick" else 600, 3)
     return fams
